@@ -45,6 +45,7 @@ type Oblig struct {
 	Src     string
 	Where   string
 	Queries []*Query
+	Partial bool // cover obligations: not every path of the site was probed (never reported vacuous)
 }
 
 type deferred struct {
@@ -187,6 +188,8 @@ type Exec struct {
 	topFrame *Frame
 	caseName string
 	nret     int
+	retSite  string         // position of the return statement being executed (top frame)
+	retSiteN map[string]int // paths seen per return site
 	curFr    *Frame
 	mterms   []*Term
 	mnames   []string
@@ -267,7 +270,8 @@ func (x *Exec) typeInvRec(t types.Type, L []*Term, st *State, facts *[]*Term) {
 	switch u := t.Underlying().(type) {
 	case *types.Basic:
 		if u.Info()&types.IsString != 0 {
-			x.sliceInv(L[0], L[1], L[2], L[2], st, facts)
+			// (string constants live at negative references: no lower bound on the reference of a string)
+			x.stringInv(L[0], L[1], L[2], st, facts)
 			return
 		}
 		if L[0].S.K == SInt && u.Info()&types.IsInteger != 0 {
@@ -301,6 +305,20 @@ func (x *Exec) typeInvRec(t types.Type, L []*Term, st *State, facts *[]*Term) {
 			off += n
 		}
 	}
+}
+
+func (x *Exec) stringInv(ref, off, ln *Term, st *State, facts *[]*Term) {
+	if st != nil && st.brk != nil {
+		*facts = append(*facts, Lt(ref, st.brk))
+	}
+	if x.tc.bv {
+		max := BVC(Pow2(40), 64)
+		*facts = append(*facts, BVCmp("bvule", ln, max), BVCmp("bvule", off, max))
+		return
+	}
+	*facts = append(*facts, Le(IntC(0), off), Le(IntC(0), ln),
+		Le(Add(off, ln), BigC(Pow2(62))),
+		Implies(Eq(ref, IntC(0)), Eq(ln, IntC(0))))
 }
 
 func (x *Exec) sliceInv(ref, off, ln, cp *Term, st *State, facts *[]*Term) {
@@ -635,6 +653,9 @@ func (x *Exec) run(st *State, fr *Frame, b *ssa.BasicBlock, idx int, pred *ssa.B
 			for j, r := range in.Results {
 				res[j] = x.reg(st, fr, r)
 			}
+			if fr.parent == nil {
+				x.retSite = fmt.Sprintf("%d", returnOrdinal(fr.fn, in))
+			}
 			fr.ret(st, res)
 			return
 		case *ssa.Panic:
@@ -860,6 +881,19 @@ func (x *Exec) loopHead(st *State, fr *Frame, b *ssa.BasicBlock, pred *ssa.Basic
 	}
 	decKey := fmt.Sprintf("dec!%s!%d", relName(fr.fn), ord)
 	if back {
+		if !x.dry && fr == x.topFrame {
+			// vacuity guard: some iteration of the loop body is completed by a satisfiable path
+			if x.retSiteN == nil {
+				x.retSiteN = map[string]int{}
+			}
+			site := "loop" + tag + ":backedge"
+			x.retSiteN[site]++
+			if x.retSiteN[site] <= 6 {
+				x.E.addCover(x, st, site)
+			} else if o, ok := x.E.obligs[fmt.Sprintf("%s.%s#cover:%s", shortPkg(fnPkgPath(x.fn)), relName(x.fn), site)]; ok {
+				o.Partial = true
+			}
+		}
 		if spec != nil {
 			for _, c := range spec.Invariants {
 				g := x.evalBool(env, c.E)
@@ -1318,4 +1352,34 @@ func sortedAllocs(m map[*ssa.Alloc]bool) []*ssa.Alloc {
 		return as[i].Name() < as[j].Name()
 	})
 	return as
+}
+
+// returnOrdinal: 1-based rank of a return instruction among the returns of its function, in source order
+// (block order for returns without a position).
+func returnOrdinal(fn *ssa.Function, r *ssa.Return) int {
+	type rp struct {
+		r   *ssa.Return
+		pos token.Pos
+		blk int
+	}
+	var rs []rp
+	for _, b := range fn.Blocks {
+		for _, in := range b.Instrs {
+			if ri, ok := in.(*ssa.Return); ok {
+				rs = append(rs, rp{ri, ri.Pos(), b.Index})
+			}
+		}
+	}
+	sort.SliceStable(rs, func(i, j int) bool {
+		if rs[i].pos != rs[j].pos {
+			return rs[i].pos < rs[j].pos
+		}
+		return rs[i].blk < rs[j].blk
+	})
+	for i, e := range rs {
+		if e.r == r {
+			return i + 1
+		}
+	}
+	return 0
 }
